@@ -45,6 +45,28 @@ def c(re, im=0):
     return complex(float(re), float(im))
 
 
+
+def random_dyadic_ensembles(count, seed):
+    """seeded family of dyadic ensembles (thorough tier): n in 2..4 states, d in 2..3, complex entries k/4, dyadic prior"""
+    import os
+    rng = np.random.default_rng(1000 + seed + int(os.environ.get("VERIF_SEED", "0") or 0))
+    fam = []
+    for t in range(count):
+        n = int(rng.integers(2, 5))
+        d = int(rng.integers(2, 4))
+        vs = []
+        for _ in range(n):
+            v = rng.integers(-3, 4, size=d) / 4.0 + 1j * rng.integers(-3, 4, size=d) / 4.0
+            if not np.any(v):
+                v[0] = 1.0
+            vs.append(v if t % 2 == 0 else v.reshape(-1, 1))
+        w = [2.0 ** -(k + 1) for k in range(n)]
+        w[-1] = 2.0 ** -(n - 1)
+        rng.shuffle(w)
+        fam.append((f"seeded dyadic ensemble #{t} (n={n}, d={d})", vs, list(w)))
+    return fam
+
+
 def instances(tier):
     T = tier == "thorough"
     h = F(1, 2)
@@ -58,6 +80,7 @@ def instances(tier):
     if T:
         fam.append(("5 complex qubit kets", [np.array([1, 0j]), np.array([0, 1j]), np.array([0.5, 0.5j]), np.array([0.5, -0.5]), np.array([0.25, 0.75j])], [0.125, 0.125, 0.25, 0.25, 0.25]))
         fam.append(("3 complex d=4 kets", [np.array([1, 0, 0.5j, 0]), np.array([0.5, 0.5, 0, 0.5j]), np.array([0, 0.25, 0.25j, 1])], [0.5, 0.25, 0.25]))
+        fam += random_dyadic_ensembles(12, 10)
     return fam
 
 
@@ -88,7 +111,7 @@ def ref_min_error_primal(V, inst):
     vs, ps = inst
     n = len(vs)
     d = rho_of(vs[0]).shape[0]
-    Ms = [V[f"M[{i}]"] for i in range(n)]
+    Ms = [V.herm(f"M[{i}]") for i in range(n)]
     cons = [("psd", M) for M in Ms]
     tot = Ms[0]
     for M in Ms[1:]:
@@ -102,7 +125,7 @@ def ref_min_error_primal(V, inst):
 
 def ref_min_error_dual(V, inst):
     vs, ps = inst
-    Y = V["Y"]
+    Y = V.herm("Y")
     cons = [("psd", np.asarray(Y) - ps[i] * rho_of(vs[i])) for i in range(len(vs))]
     return SymProgram("min", np.array([[tr(Y)]], dtype=object), cons)
 
@@ -126,15 +149,7 @@ def ref_unamb_dual(V, inst):
     vs, ps = inst
     n = len(vs)
     G = gram_of(vs)
-    Z = np.asarray(V["Z"], dtype=object).copy()
-    zvar = [v for v in V.vars if v.name == "Z"][0]
-    if zvar.structure != "hermitian" and np.any(np.abs(G.imag) > 1e-12):
-        b = Builder(cur())
-        for i in range(n):
-            for j in range(i + 1, n):
-                im = b.real(f"Zim_{i}_{j}")
-                Z[i, j] = Z[i, j] + 1j * im
-                Z[j, i] = Z[j, i] - 1j * im
+    Z = V.herm("Z")
     cons = [("psd", Z)] + [("ge0", np.array([[Z[i, i] - ps[i]]], dtype=object)) for i in range(n)]
     return SymProgram("min", np.array([[lift(tr(G @ Z)).real]], dtype=object), cons)
 
@@ -177,8 +192,51 @@ def ob_glue(n, d, form):
     return Obligation("glue.to_density_matrix_and_gram_matrix", cfg, build, call, oracle, post=post)
 
 
+def ob_distinguishable_glue(n, with_probs):
+    """is_distinguishable with the SDP stubbed by a symbolic optimum: verdict = isclose(value, 1), prior forwarded"""
+    from toqito.state_props import is_distinguishable
+    from symnp.core import SymBool
+    cfg = {"n_states": n, "probs_given": with_probs}
+    seen = {}
+
+    def build(b):
+        return {"v": b.real("opt_val")}
+
+    def call(i):
+        import sys
+        m = sys.modules["toqito.state_props.is_distinguishable"]
+        o = m.state_distinguishability
+
+        def stub(vectors, probs=None, strategy="min_error", solver="cvxopt", primal_dual="dual", **kw):
+            seen["probs"], seen["strategy"], seen["n"] = probs, strategy, len(vectors)
+            return i["v"], None
+        m.state_distinguishability = stub
+        try:
+            states = [np.eye(2)[k % 2] for k in range(n)]
+            pr = [1.0 / (2 ** (k + 1)) for k in range(n - 1)] + [1.0 / (2 ** (n - 1))] if with_probs else None
+            r = is_distinguishable(states, pr)
+        finally:
+            m.state_distinguishability = o
+        return [r, seen["probs"] == pr and seen["strategy"] == "min_error" and seen["n"] == n]
+
+    def oracle(i):
+        return None
+
+    def post(res, exp, i):
+        v = i["v"]
+        if isinstance(v, float):
+            return bool(res[0]) == (abs(v - 1) <= 1e-8 + 1e-5) and res[1]
+        tol = lift(1e-8) + lift(1e-5)      # numpy: atol + rtol * |1| (added exactly, as the symbolic execution does)
+        want = (v - 1 <= tol) & (1 - v <= tol)
+        return (SymBool(res[0]) == want) & SymBool(res[1])
+    return Obligation("is_distinguishable.verdict_is_isclose_of_optimum_to_one", cfg, build, call, oracle, post=post, neg_control=False, tv=False)
+
+
 def obligations(tier):
     obs = []
+    for n in (2, 3):
+        for wp in (False, True):
+            obs.append(ob_distinguishable_glue(n, wp))
     for name, vs, ps in instances(tier):
         n = len(vs)
         pp = ps if ps is not None else [1.0 / n] * n
